@@ -94,6 +94,25 @@ def run(tier, seed):
         one(b)
         if i < 3:
             chk.sample({"input_len": n, "impl_enc_prefix": impl_enc(b)[:24]})
+    # texts that are words elsewhere but plain base64url here: decode(text) is what the model says, and re-encoding gives the text back when it is canonical
+    from harness import srcdict
+    import base64 as _b64
+    for w in ["null", "true", "false", "None", "NaN", "undefined", "Infinity", "nullnull", "AAAA", "data", "self", "test", "json", "0000", "1234", "this", "eval", "void"] + srcdict.words():
+        if not w or not set(w) <= ALPHA:
+            continue
+        d = impl_dec(w)
+        chk.evals += 1
+        try:
+            want = "OK " + fw.wb(_b64.urlsafe_b64decode(w + "=" * (-len(w) % 4))) if len(w) % 4 != 1 else None
+        except Exception:
+            want = None
+        if want is not None and d != want:
+            chk.violation(f"the base64url text {w!r} does not decode to the bytes it encodes", f"decode-special-text {w}", {"op": "dec", "text": w, "impl_dec": d, "expected": want})
+        if R:
+            md = R.call("b64dec " + fw.ws(w))
+            if md != d and not (md.startswith("ERR Py") and d.startswith("ERR")):
+                chk.diverge("Model.b64url_dec", f"text {w!r} model {md[:80]} impl {d[:80]}", {"op": "dec", "text": w})
+        chk.seen(("word", w))
     # the id of a credential is compared with THE encoding of its raw id (anchor sites in verify_*): every other spelling that merely
     # decodes to the same bytes is refused
     from harness import impl, authcat, authsim, regsim, regrun
